@@ -227,6 +227,30 @@ pub fn ring_lines(rng: &mut Rng, idx: u64) -> Vec<String> {
                 )
             });
             out.push(format!("{} => {}", head, r.unwrap_or_else(|e| e)));
+            // units times a value whose components differ by many binary orders of magnitude:
+            // every factor, partial product and result is exactly representable, so the identities
+            // must hold to the last bit (multiplication schemes with intermediate sums need not)
+            let (p, q): (i32, i32) = match rng.below(4) {
+                0 => (53, 0),
+                1 => (30, -30),
+                2 => (0, 52),
+                _ => (40, 2),
+            };
+            let (sr, si) = (if rng.coin() { 1.0 } else { -1.0 }, if rng.coin() { 1.0 } else { -1.0 });
+            let x = Complex { re: sr * 2f64.powi(p) + if p == 53 { 0.0 } else { 0.0 }, im: si * 2f64.powi(q) };
+            let head = format!("ring type=cxu p={} q={} sr={} si={}", p, q, sr as i32, si as i32);
+            let r = guarded(|| {
+                let v = |f: Complex| format!("{},{}", f64_exact(f.re), f64_exact(f.im));
+                let one = Complex::one();
+                let i = Complex { re: 0.0, im: 1.0 };
+                let m1 = Complex { re: -1.0, im: 0.0 };
+                let two = Complex { re: 2.0, im: 0.0 };
+                format!(
+                    "x={} x1={} 1x={} xi={} ix={} xm={} x2={} 2x={}",
+                    v(x), v(x * one), v(one * x), v(x * i), v(i * x), v(x * m1), v(x * two), v(two * x)
+                )
+            });
+            out.push(format!("{} => {}", head, r.unwrap_or_else(|e| e)));
         }
         _ => {
             // booleans (exhaustive: 8 triples) and polynomials over a small finite field
